@@ -440,6 +440,28 @@ def P_option_some(b, op):
 # --------------------------------------------------------------------------------------------
 # INDEX-MOD
 
+def rule_writers_raii(fx, col):
+    """The count of writers poking into a node is moved only by the reservation object: incremented where a NodeReservation is
+    produced, decremented in its Drop. A hand-written `fetch_add .. call .. fetch_sub` around a call that can run user code
+    (help -> replacement() / drop of a rejected replacement) loses the decrement on unwinding: the node then stays in cooldown
+    for ever."""
+    cx = O.ctx(fx)
+    n = 0
+    for s_ in cx.sites:
+        if s_.cls != 'active_writers' or not s_.op.startswith('fetch_'):
+            continue
+        n += 1
+        b = s_.body
+        if s_.op == 'fetch_add':
+            ok = 'NodeReservation' in b.local_ty(0)
+            why = 'incremented in a function returning the reservation (%s -> %s)' % (b.fname, b.local_ty(0))
+        else:
+            ok = b.name == 'drop' and 'NodeReservation' in (b.j.get('impl_self_ty') or '')
+            why = 'decremented in Drop for NodeReservation (here: %s)' % b.fname
+        col.add('WRITERS-RAII', '%s|active_writers.%s' % (b.fname, s_.op), ok, why, s_.loc)
+    col.floor('WRITERS-RAII', 'RMWs on active_writers', n, 2)
+
+
 def rule_index_mod(fx, col):
     lib = fx.lib
     bs = [b for b in lib.bodies if b.fname == 'arc_swap::debt::fast::Slots::get_debt']
@@ -463,18 +485,23 @@ def rule_index_mod(fx, col):
         defs = [d for d in b.assigns().get(l, []) if d[2] == 'stmt']
         ok = bool(defs)
         why = []
-        for (bb, i, kind, rv, proj) in defs:
-            src = rv
-            if rv['k'] == 'use':
-                d = U.def_rvalue(b, rv['op'])
-                src = d[3] if d and d[0] == 'rv' else rv
-            if src['k'] == 'binop' and src['op'] == 'Rem':
-                lt = tokens(cx, b, src['r'])
+        def reduced(rv, depth=0):
+            """every value this rvalue can take was produced by `_ % len` (copies of a variable with several assignments
+            are followed into each assignment)"""
+            if depth > 6:
+                return False
+            if rv['k'] == 'binop' and rv['op'] == 'Rem':
+                lt = tokens(cx, b, rv['r'])
                 why.append('index = _ %% %s' % sorted(lt))
-                ok &= 'call:len' in lt
-            else:
-                ok = False
-                why.append('index defined by %s' % src['k'])
+                return 'call:len' in lt
+            if rv['k'] == 'use' and rv['op'].get('k') in ('copy', 'move') and not rv['op']['place']['proj']:
+                ds = [d for d in b.assigns().get(rv['op']['place']['local'], []) if not d[4]]
+                if ds and all(d[2] == 'stmt' for d in ds):
+                    return all(reduced(d[3], depth + 1) for d in ds)
+            why.append('index defined by %s' % rv['k'])
+            return False
+        for (bb, i, kind, rv, proj) in defs:
+            ok &= reduced(rv)
         col.add('INDEX-MOD', 'get_debt|index _%d' % l, ok, '; '.join(why))
     col.floor('INDEX-MOD', 'indexed accesses', n, 1)
     # len is the length of a fixed-size, non-empty array
